@@ -371,6 +371,7 @@ package oras
 //@ pure fetchableAT(mt string) bool = mt == "application/vnd.oci.artifact.manifest.v1+json" || mt == "application/vnd.oci.image.manifest.v1+json"
 //@ func (*ExtendedCopyGraphOptions).FilterArtifactType$2
 //@   requires [wf] src != nil && regex != nil
+//@   call Referrers requires [C03:all-referrers-requested-the-filter-is-applied-locally] args.artifactType == "" && args.desc == desc
 //@   call fetchArtifactType requires [C03:fetch-only-when-type-missing] args.desc == predecessors[$i] && predecessors[$i].ArtifactType == "" && fetchableAT(predecessors[$i].MediaType) && args.src == src
 //@   call fetchArtifactType set fatFetched($i) = result0
 //@   loop 0 invariant [objects] regex != nil && regex == old(regex) && $i <= len(predecessors) && (kept == nil || !sameArray(kept, predecessors))
@@ -390,6 +391,7 @@ package oras
 //@ pure annOK(m map[string]string, key string, re *regexp.Regexp) bool = key in m && (re == nil || reMatch(re, m[key]))
 //@ func (*ExtendedCopyGraphOptions).FilterAnnotation$2
 //@   requires [wf] src != nil
+//@   call Referrers requires [C03:all-referrers-requested-the-filter-is-applied-locally] args.artifactType == "" && args.desc == desc
 //@   call fetchAnnotations requires [C03:fetch-only-when-annotations-missing] args.desc == predecessors[$i] && predecessors[$i].Annotations == nil && isManifestMT(predecessors[$i].MediaType) && args.src == src
 //@   call fetchAnnotations set fanFetched($i) = result0
 //@   loop 0 invariant [objects] $i <= len(predecessors) && (kept == nil || !sameArray(kept, predecessors))
